@@ -182,14 +182,19 @@ func (e *Exec) topReturn(st *State, fr *Frame, res Val) {
 	ctx := e.entryCtx(st, fr)
 	resultVars(ctx.vars, fr.fn.Signature, res)
 	for _, q := range c.Ensures {
+		// each clause is proved on its own: proved clauses are not kept as
+		// assumptions (quantified lemmas make later queries unstable)
+		g := ctx.evalBool(q.Expr)
+		e.push()
 		if len(q.Tags) > 0 {
 			save := e.curTags
 			e.curTags = q.Tags
-			e.check(st, nil, "POST", nil, q.Text, ctx.evalBool(q.Expr))
+			e.check(st, nil, "POST", nil, q.Text, g)
 			e.curTags = save
-			continue
+		} else {
+			e.check(st, nil, "POST", nil, q.Text, g)
 		}
-		e.check(st, nil, "POST", nil, q.Text, ctx.evalBool(q.Expr))
+		e.pop()
 	}
 	for _, q := range c.Exits {
 		e.check(st, nil, "EXIT", nil, q.Text, ctx.evalBool(q.Expr))
